@@ -122,7 +122,7 @@ int run_tfel_check(const std::string& root, long njobs, bool discard, bool sync)
   int r = -2;
   try { vsim::Monitored code_under_test; r = tfel_check_main(int(av.size()), av.data()); } catch (...) { std::cout.flush(); fflush(stdout); dup2(saved, 1); close(saved); throw; }
   std::cout.flush(); fflush(stdout); dup2(saved, 1); close(saved);
-  return r;
+  return r < 0 ? r : (r & 0xff);   // what the parent of a real tfel-check process sees of the value returned by main: its low 8 bits
 }
 
 std::string g_root;
@@ -135,6 +135,15 @@ struct H52 : hu::Harness {
     long nfiles = tier ? r.range(1, 12) : r.range(1, 6);
     long nj = r.chance(1, 5) ? 1 : r.range(2, tier ? 16 : 6);
     p.params = {nj, r.chance(1, 4), r.chance(1, 4)};
+    if (r.chance(1, 80)) {
+      // scale: hundreds of check files, every one failing on a comparison (no process involved): the exit status is a byte, the verdict is not
+      static const long counts[] = {255, 256, 257, 512};
+      nfiles = counts[r.range(0, 3)];
+      for (long f = 0; f < nfiles; ++f) p.ops.push_back({f, f % 3, K_COMPARE, 0, 0, 0});
+      cfg.strategy = int(r.range(0, 3)); cfg.sticky_num = 3; cfg.starve_thread = int(r.range(0, nj)); cfg.sig_linux_bias = 1;
+      cfg.max_steps = 400000 + 4000 * nfiles;
+      return p;
+    }
     long ndirs = r.range(1, 3);
     for (long f = 0; f < nfiles; ++f) {
       long d = r.range(0, ndirs - 1), n = r.range(1, tier ? 4 : 3);
